@@ -19,10 +19,17 @@ private theorem focLeave (s : SchemaD) (fx : Fixes) : ∀ n ti rs, leaveRule s f
 private theorem foc_scf (s : SchemaD) (fx : Fixes) :
     SCF ⟨s, fx, [.fragmentsOnCompositeTypes]⟩ (badFragType s) (fun _ => 0) (fun _ => 0) where
   skipE n st hn hb := by
-    simp only [enter, enterRules_one, E]
-    cases n <;> simp_all [badFragType, enterRule, RS.err]
-    rename_i on dirs
-    cases on <;> simp_all [badFragType, enterRule, RS.err]
+    have hold : (enter ⟨s, fx, [.fragmentsOnCompositeTypes]⟩ n st).2 = true ∧
+        E st < E (enter ⟨s, fx, [.fragmentsOnCompositeTypes]⟩ n st).1 := by
+      simp only [enter, enterRules_one, E]
+      cases n <;> simp_all [badFragType, enterRule, RS.err]
+      rename_i on dirs
+      cases on <;> simp_all [badFragType, enterRule, RS.err]
+    refine ⟨hold.1, ?_⟩
+    rw [leaveSkipped_enter_single s fx _ n st hold.1]
+    have := hold.2
+    simp only [enter, enterRules_one, E] at this
+    exact this
   noskip n st hn hb := by
     simp only [enter, enterRules_one]
     cases n <;> simp_all [badFragType, enterRule]
